@@ -78,6 +78,7 @@ func runC17(c *Ctx) {
 	}
 	ab := p.MustMethod(pkgConsensus, "RaftNode", "AddBulk")
 	nSend := 0
+	abRg := p.RegionOf(ab, 2) // the emission loop may be a helper of the node, used by AddBulk alone
 	for _, fn := range p.ModFuncs {
 		if !p.Production(fn) {
 			continue
@@ -89,9 +90,22 @@ func runC17(c *Ctx) {
 				return
 			}
 			nSend++
+			site := abRg.SiteOf(fn)
 			if fn != ab {
-				c.Fail("R1", funcName(fn)+":send", in.Pos(), "a second producer writes to the snapshots channel: snapshots can be emitted twice")
-				return
+				callers := 0
+				for _, g := range p.ModFuncs {
+					callers += len(callsIn(g, func(k *ssa.CallCommon) bool { return k.StaticCallee() == fn }))
+				}
+				loopedCall := false
+				for _, ci := range site.chain {
+					if inCycle(ci.Block()) {
+						loopedCall = true
+					}
+				}
+				if len(abRg.sites[fn]) != 1 || callers != 1 || loopedCall || fn.Parent() != nil {
+					c.Fail("R1", funcName(fn)+":send", in.Pos(), "a second producer writes to the snapshots channel: snapshots can be emitted twice")
+					return
+				}
 			}
 			var why []string
 			if !inCycle(s.Block()) {
@@ -104,14 +118,14 @@ func runC17(c *Ctx) {
 				whole, _ := p.storesTo(al)
 				okSrc := len(whole) == 1
 				if okSrc {
-					t := p.TermOf(whole[0])
+					t := abRg.Term(site, whole[0])
 					okSrc = t.Op == "index" && strings.Contains(t.Args[1].String(), "µ") && t.Args[0].Has(func(x *Term) bool { return x.Op == "call" && x.Fn != nil && x.Fn.Name() == "propose" })
 				}
 				if !okSrc {
 					why = append(why, "the copy sent is not element i of the FSM response")
 				}
 			}
-			for _, k := range p.CondsAt(s.Block()) {
+			for _, k := range abRg.Conds(regionInstr{site, in}) {
 				if k.Atom.Op == "LT" && strings.Contains(k.Atom.String(), "µ") {
 					continue
 				}
@@ -230,6 +244,11 @@ func c17Batcher(c *Ctx, bt *ssa.Function) {
 		cc := callCommon(in)
 		return cc != nil && cc.StaticCallee() != nil && cc.StaticCallee().Name() == "Publish"
 	}
+	// publishing may be delegated to a helper of the sender (encode + publish): a call to a helper
+	// that publishes on every non-error path counts as the publish at that point of the loop
+	rg := p.RegionOf(bt, 2)
+	isPublishHere := isPublish
+	isPublish = rg.deepHit(isPublishHere, mustOpts{skipErrEdges: true}, map[*ssa.Function]int{}, 0)
 	isSelect := func(in ssa.Instruction) bool { _, ok := in.(*ssa.Select); return ok }
 	errSkip := func(b *ssa.BasicBlock) int {
 		if ifi := blockIf(b); ifi != nil {
@@ -330,13 +349,20 @@ func c17Batcher(c *Ctx, bt *ssa.Function) {
 	}
 	// (c) every publish is followed by a fresh batch before the next receive, and carries the encoding of the current batch
 	n := 0
-	eachInstr(bt, func(in ssa.Instruction) {
-		if !isPublish(in) {
-			return
+	for _, ri := range rg.CallsAllSites(func(k *ssa.CallCommon) bool { return k.StaticCallee() != nil && k.StaticCallee().Name() == "Publish" }) {
+		if _, isDefer := ri.in.(*ssa.Defer); isDefer {
+			continue
 		}
+		in := rg.Anchor(ri)
 		n++
-		resent := reachesWithout(in, isSelect, isNewBatch, nil)
-		msg := p.ContentTerm(callCommon(in).Args[1])
+		var resent bool
+		if in == ri.in {
+			resent = reachesWithout(in, isSelect, isNewBatch, nil)
+		} else {
+			// the helper's failure edge is the path on which nothing was published
+			resent = reachesWithout(in, isSelect, isNewBatch, errSkip)
+		}
+		msg := rg.lift(ri.site, p.ContentTerm(callCommon(ri.in).Args[1]))
 		okPayload := msg.Has(func(x *Term) bool {
 			return x.Op == "fieldval" && x.Name == "Payload" && x.Args[0].Has(func(y *Term) bool { return y.Op == "call" && y.Fn != nil && y.Fn.Name() == "Encode" })
 		})
@@ -344,7 +370,7 @@ func c17Batcher(c *Ctx, bt *ssa.Function) {
 		c.Check(!resent && okPayload && okTTL, "R2", fmt.Sprintf("%s:publish#%d", name, n), in.Pos(), "publishes Encode(batch) with the configured TTL, then starts a fresh batch",
 			fmt.Sprintf("after this publish the same batch can be published again (no fresh batch before the next receive)=%v; payload is the batch encoding=%v; TTL from configuration=%v", resent, okPayload, okTTL))
 		// timer flush only when non-empty
-		cs := p.CondsAt(in.Block())
+		cs := rg.Conds(ri)
 		if hasCond(cs, func(k Cond) bool {
 			return k.Atom.Op == "EQ" && k.Atom.Has(func(x *Term) bool { return x.Op == "select" }) && (k.Atom.Args[0].Name == "1" || k.Atom.Args[1].Name == "1") && k.Pol
 		}) {
@@ -354,7 +380,7 @@ func c17Batcher(c *Ctx, bt *ssa.Function) {
 			})
 			c.Check(nonEmpty, "R2", name+":timer-flush", in.Pos(), "timer publishes only a non-empty batch", "the timer branch publishes without testing that the batch is non-empty")
 		}
-	})
+	}
 	if n < 2 {
 		c.Fail("R2", name+":publish", bt.Pos(), fmt.Sprintf("%d publish sites (full batch and timer expected)", n))
 	}
